@@ -47,3 +47,34 @@ impl HomeRelayWatch {
         self.0.watch()
     }
 }
+
+/// A real, stand-alone `ActiveRelayActor` (unchanged) that dials `url` with an insecure TLS
+/// config (test relay servers use self-signed certificates) and publishes into `watch`.
+#[derive(Debug)]
+pub struct ActiveRelay(crate::socket::transports::VerifActiveRelay);
+
+impl ActiveRelay {
+    pub fn spawn(url: RelayUrl, watch: &HomeRelayWatch, secret_key: iroh_base::SecretKey) -> Self {
+        let tls_config = iroh_relay::tls::CaTlsConfig::insecure_skip_verify()
+            .client_config(iroh_relay::tls::default_provider())
+            .expect("infallible");
+        Self(crate::socket::transports::VerifActiveRelay::spawn(
+            url,
+            watch.0.clone(),
+            secret_key,
+            tls_config,
+        ))
+    }
+    pub fn try_set_home_relay(&self, is_home: bool) -> bool {
+        self.0.try_set_home_relay(is_home)
+    }
+    pub fn inbox_drained(&self) -> bool {
+        self.0.inbox_drained()
+    }
+    pub async fn recv_datagram(&mut self) -> Option<(iroh_base::EndpointId, usize)> {
+        self.0.recv_datagram().await
+    }
+    pub async fn stop(self) {
+        self.0.stop().await
+    }
+}
